@@ -439,6 +439,7 @@ CANON = {"kaiser": "signal.windows.kaiser", "lfilter": "signal.lfilter", "upfird
 KEEP_POS = 1          # how many leading parameters of a SIGS function stay positional in the value
 NP_METHODS = {"sum", "mean", "cumsum", "all", "any", "max", "min", "nonzero", "swapaxes", "transpose", "ravel", "reshape", "std", "var", "prod",
               "argmax", "argmin", "flatten", "squeeze", "conj", "round", "clip", "dot", "argsort", "repeat", "take", "tolist", "item", "cumprod", "searchsorted"}
+KEEPDIMS_REDUCTIONS = {"mean", "sum", "max", "min", "amax", "amin", "median", "std", "var", "prod", "nanmean", "nansum", "nanmax", "nanmin", "nanmedian", "nanstd", "nanvar", "ptp"}
 IDENT_CALLS = {"float", "np.asarray", "np.array", "np.atleast_1d", "np.asanyarray", "np.real", "complex", "list", "tuple", "np.ascontiguousarray"}
 IDENT_METHODS = {"astype", "copy", "view"}
 PURE_METHODS = {"index", "count", "get", "keys", "values", "items", "format", "join", "split", "strip", "startswith", "endswith", "lower", "upper", "nonzero", "searchsorted", "tobytes", "diagonal",
@@ -685,6 +686,71 @@ class V:
                 else:
                     return None
             return r if r >= 0 else None
+        return None
+
+    def shape_carrier(self, v, depth=0):
+        """The array X an element-wise expression v certainly has the shape of (numpy broadcasting), or None.  v is a sum / product / quotient whose factors are
+        X itself, scalars, and reductions of (an array shaped like) X along one axis with keepdims=True - these have X's shape with one extent replaced by 1, so they
+        broadcast against X to X's shape: `(data - data.mean(axis=-1, keepdims=True)).shape` is `data.shape` whatever the number of dimensions."""
+        if not israt(v) or depth > 4:
+            return None
+        carrier, plain = None, False
+        for p_ in (v.n, v.d):
+            for a in p_.atoms():
+                d = F.atom_desc(a)
+                if d[0] not in ("s", "fn"):
+                    return None
+                av = F.Rat(F.Poly.atom(a))
+                if self.rank(av) == 0:
+                    continue
+                red = self._keepdims_reduced(av)
+                if red is not None:
+                    cand = self.shape_carrier(red, depth + 1)          # (the array reduced: X itself or again an expression shaped like X)
+                    if cand is None:
+                        return None
+                elif d[0] == "s" and d[1][:1] not in "'\"" and d[1] not in ("None", "True", "False", "Ellipsis"):
+                    cand, plain = av, True
+                else:
+                    return None
+                if carrier is None:
+                    carrier = cand
+                elif not eq(carrier, cand):
+                    return None
+        return carrier if plain else None
+
+    @staticmethod
+    def _keepdims_reduced(av):
+        """A when av is np.<reduction>(A, axis=<one integer>, keepdims=True) - or the reduction along the LAST axis with that axis put back as a trailing axis of length 1
+        (`A.mean(axis=-1)[..., None]`, `np.expand_dims(A.mean(axis=-1), -1)`) - else None"""
+        def reduction(v, keep):
+            u = unfn(v)
+            if u is None or not u[0].startswith("call:np.") or u[0][8:] not in KEEPDIMS_REDUCTIONS:
+                return None
+            pos, kw = call_args(u[1])
+            if not pos or not israt(pos[0]) or len(pos) > 2 or set(kw) - {"axis", "keepdims", "dtype"}:
+                return None
+            ax = kw.get("axis", pos[1] if len(pos) > 1 else None)
+            kd = kw.get("keepdims")
+            if ax is None or int_of(ax) is None:
+                return None
+            if keep:
+                return pos[0] if kd is not None and is_sym(kd, "True") else None
+            return pos[0] if int_of(ax) == -1 and (kd is None or is_sym(kd, "False")) else None
+        r = reduction(av, True)
+        if r is not None:
+            return r
+        ix = un(av, "idx")
+        if ix is not None:
+            parts = ix_parts(ix[1])
+            if len(parts) == 2 and is_sym(parts[0], "Ellipsis") and (is_sym(parts[1], "None") or is_sym(parts[1], "np.newaxis")):
+                return reduction(ix[0], False)
+            return None
+        ex = un(av, "call:np.expand_dims")
+        if ex is not None:
+            pos, kw = call_args(ex)
+            ax = kw.get("axis", pos[1] if len(pos) > 1 else None)
+            if pos and ax is not None and int_of(ax) == -1:
+                return reduction(pos[0], False)
         return None
 
     def shape_dim(self, v, k):
@@ -1177,6 +1243,10 @@ class V:
                 return self.np_call("np.transpose", [base], {}, node)
             if node.attr == "real":
                 return base
+            if node.attr in ("shape", "ndim", "size") and israt(base):
+                like = self.shape_carrier(base)          # (X - X.mean(axis=-1, keepdims=True)).shape = X.shape: broadcasting
+                if like is not None:
+                    base = like
             return F.fn("attr:" + node.attr, base)
         if isinstance(node, ast.UnaryOp):
             v = self._ev(node.operand)
@@ -1893,6 +1963,8 @@ class V:
             return F.fn(name[3:], as_rat(pos[0] if n else kw["shape"]))
         if name in ("np.zeros_like", "np.ones_like", "np.empty_like") and n >= 1 and israt(pos[0]):
             kind = name[3:-5]
+            if kw.get("shape") is not None:
+                return F.fn(kind, as_rat(kw["shape"]))          # np.zeros_like(X, shape=s): only dtype / order are taken from X
             for k0 in ("zeros", "ones", "empty"):
                 a = un(pos[0], k0)
                 if a is not None:
